@@ -13,6 +13,7 @@ mod c05;
 mod c07;
 mod c09;
 mod c10;
+mod c11;
 mod tree;
 mod c14;
 mod c15;
@@ -45,6 +46,7 @@ fn scenarios(prop: &str, tier: &str) -> Vec<Scenario> {
         "C07" => c07::scenarios(tier),
         "C09" => c09::scenarios(tier),
         "C10" => c10::scenarios(tier),
+        "C11" => c11::scenarios(tier),
         "C14" => c14::scenarios(tier),
         "C15" => c15::scenarios(tier),
         "C16" => c16::scenarios(tier),
